@@ -58,6 +58,8 @@ type Script struct {
 	BindFail map[string]int `json:"bind_fail,omitempty"`
 	// StmtProgram drives the verif-stmtfuzz action (C13)
 	StmtProgram []StmtOp `json:"stmt_program,omitempty"`
+	// C17: binder-only simulation (replaces world/ops)
+	C17 *C17Script `json:"c17,omitempty"`
 }
 
 func (s *Script) JSON() string {
@@ -215,6 +217,9 @@ func RunScript(t *testing.T, s *Script, oracles []Oracle, keepTrace bool) (res *
 			os.Exit(3)
 		}
 	}()
+	if s.C17 != nil {
+		return runC17(t, s.C17)
+	}
 	func() {
 		defer func() {
 			if p := recover(); p != nil {
@@ -539,4 +544,16 @@ func panicSite(stack string) string {
 		}
 	}
 	return strings.Join(out, " <- ")
+}
+
+func goid() int64 {
+	var buf [64]byte
+	n := runtime.Stack(buf[:], false)
+	// "goroutine 123 [running]:"
+	f := strings.Fields(string(buf[:n]))
+	if len(f) < 2 {
+		return 0
+	}
+	id, _ := strconv.ParseInt(f[1], 10, 64)
+	return id
 }
